@@ -381,10 +381,11 @@ package text
 //@   captures (wsMode WsMode, p parsley.Parser)
 //@   requires p != nil
 //@   include  parsley.Parser.Parse
-//@   logs parsley.Parser.Parse, ast.SetReaderPos
+//@   logs parsley.Parser.Parse, ast.SetReaderPos, text.(*Reader).SkipWhitespaces
 //@   ensures  [once;C01,C02] ncalls() >= 1 && callarg[*parsley.Context](1, 1) == ctx && same(callarg[data.IntMap](1, 2), lrc) && callarg[parsley.Pos](1, 3) == pos
 //@   ensures  [trim-applied;C10] callres[parsley.Error](1, 2) == nil && callres[parsley.Node](1, 0) != nil ==> ncalls() == 2 && same(callarg[parsley.Node](2, 0), callres[parsley.Node](1, 0))
-//@   ensures  [untouched-on-error;C10] callres[parsley.Error](1, 2) != nil || callres[parsley.Node](1, 0) == nil ==> ncalls() == 1
+//@   ensures  [untouched-on-error;C10] callres[parsley.Error](1, 2) == nil && callres[parsley.Node](1, 0) == nil ==> ncalls() == 1
+//@   ensures  [error-moved;C10,C12] callres[parsley.Error](1, 2) != nil ==> ncalls() == 2 && callarg[parsley.Pos](2, 1) == callres[parsley.Error](1, 2).Pos() && callarg[WsMode](2, 2) == wsMode && err != nil && (callres[parsley.Pos](2, 0) > callres[parsley.Error](1, 2).Pos() ==> err.Pos() == callres[parsley.Pos](2, 0) && same(err.Cause(), callres[parsley.Error](1, 2).Cause())) && (callres[parsley.Pos](2, 0) <= callres[parsley.Error](1, 2).Pos() ==> same(err, callres[parsley.Error](1, 2)))
 //@   ensures  [cp] err == nil && n != nil ==> same(cp, callres[data.IntSet](1, 1))
 //@   ensures  [ws-error;C10] callres[parsley.Error](1, 2) == nil && callres[parsley.Node](1, 0) != nil && n == nil ==> err != nil && parsley.IsWsErr(err)
 //@   ghost_return when err != nil && err.Pos() > parsley.GhostMaxFail :: parsley.GhostMaxFail = err.Pos()
